@@ -29,7 +29,9 @@ CONSTANTS Nodes, Pre, Splits, Dyn, DisBy,
           MaxAtt,      \* max attempts per metadata object
           MaxCrash,    \* number of crashes explored
           MaxFail,     \* number of job failures explored
-          Survive      \* may local jobs survive a crash of mrp (orphans)
+          Survive,     \* may local jobs survive a crash of mrp (orphans)
+          EarlyChunks  \* FALSE: the code as it is.  TRUE: a variant of Fork.getState that takes a split
+                       \* for finished as soon as its _stage_defs is known (it violates StartsAfterDeps)
 
 Kinds == {"split", "chunk", "join"}
 Forks == 0..(MaxF - 1)
@@ -100,7 +102,9 @@ ForkState(n, f) ==
        ELSE IF nc > 0 /\ \E c \in 0..(nc - 1) : cs[c] = "failed" THEN "failed"
        ELSE IF nc > 0 /\ \A c \in 0..(nc - 1) : cs[c] = "complete" THEN "chunks_complete"
        ELSE IF nc > 0 /\ \A c \in 0..(nc - 1) : cs[c] \in {"queued", "running", "complete"} THEN "chunks_running"
-       ELSE IF ss # "none" THEN (IF ss = "failed" THEN "failed" ELSE "split_" \o ss)
+       ELSE IF ss # "none" THEN (IF ss = "failed" THEN "failed"
+                                 ELSE IF EarlyChunks /\ ss = "running" /\ "defs" \in belief[<<n, f, "split", 0>>] THEN "split_complete"
+                                 ELSE "split_" \o ss)
        ELSE "ready"
 
 (* Node.getState *)
@@ -283,6 +287,17 @@ JobLog(md, a) ==
     /\ journal' = journal \cup {[md |-> md, a |-> a, name |-> "log"]}
     /\ UNCHANGED <<lnk, fdisk, locked, nchunks, len, flag, proc, up, memory, result, hist>>
 
+(* a split job publishes its chunk definitions and tells mrp about them before it
+   finishes (the Go adapter journals stage_defs; the job's end-of-job work follows) *)
+JobDefs(md, a) ==
+    /\ proc[<<md, a>>] = "running" /\ md[3] = "split" /\ "defs" \notin disk[<<md, a>>]
+    /\ disk' = [disk EXCEPT ![<<md, a>>] = @ \cup {"defs"}]
+    /\ journal' = journal \cup {[md |-> md, a |-> a, name |-> "defs"]}
+    /\ IF nchunks[<<md[1], md[2]>>] = -1
+       THEN \E c \in 0..MaxC : nchunks' = [nchunks EXCEPT ![<<md[1], md[2]>>] = c]
+       ELSE UNCHANGED nchunks
+    /\ UNCHANGED <<lnk, fdisk, locked, len, flag, proc, up, memory, result, hist>>
+
 (* the job writes its outputs and the completion marker ... *)
 JobWrite(md, a) ==
     /\ proc[<<md, a>>] = "running"
@@ -370,7 +385,7 @@ Next ==
     \/ \E n \in Nodes : NodeUpdate(n)
     \/ Finish
     \/ \E md \in MDs, a \in Atts :
-          JobStart(md, a) \/ JobLog(md, a) \/ JobWrite(md, a) \/ JobNotify(md, a) \/ JobFail(md, a)
+          JobStart(md, a) \/ JobLog(md, a) \/ JobDefs(md, a) \/ JobWrite(md, a) \/ JobNotify(md, a) \/ JobFail(md, a)
     \/ Crash \/ Restart
 
 Spec == Init /\ [][Next]_vars
